@@ -29,7 +29,7 @@ def spec_ft_word(it, x, delta, axes, inverse=False):
     return w.scaled(sc)
 
 
-def obligations(chk):
+def obligations(chk, real_variants=True):
     B, N = z3.Ints("B N")
     delta = z3.Real("delta")
     for (f, g, rank2) in (("ft", "ift", False), ("ft2", "ift2", True)):
@@ -85,4 +85,5 @@ def obligations(chk):
                 replay=lambda m, name=name: {"name": name})
 
     # real-input variants: rfft / irfft on half spectra are outside the word encoding; bounded native stand-in
-    fallback(chk, "rft/irft/rft2/irft2", FT + ":rft,irft,rft2,irft2", "real", "numpy.fft.rfft/irfft (half spectra) are not in the operator-word encoding")
+    if real_variants:
+        fallback(chk, "rft/irft/rft2/irft2", FT + ":rft,irft,rft2,irft2", "real", "numpy.fft.rfft/irfft (half spectra) are not in the operator-word encoding")
